@@ -56,7 +56,7 @@ SPEC = dict(
           "combinations of 5 persisted entry states (absent, manual, auto, undesired, hotplug-gone) x 6 operations (connect, "
           "auto-connect, disconnect, forget, auto-disconnect, hotplug-disconnect) x 6 failure points (none, hook before, 1st/2nd "
           "security setup inside the main task, 1st/2nd task after) as one-change histories (180), and the auto-connect change (setup-profiles + auto-connect, "
-          "base declaration allowing auto-connection with slots-per-plug: *) from the 5 entry states x 6 failure points; (c) random initial `conns` over the "
+          "base declaration allowing auto-connection with slots-per-plug: *) from the 5 entry states x 6 failure points, and the removal of the plug snap (auto-disconnect, unlink stand-in, remove-profiles, discard-conns) x none/before/after; (c) random initial `conns` over the "
           "4 ids followed by 1-4 random changes, each with a random failure point. Observed before and after every settled change: "
           "state `conns` (auto, by-gadget, undesired, hotplug-gone, attributes kept), repo.Interfaces().Connections, and the "
           "connection sets each snap's profile was last generated for (recorded inside the backend's Setup); plus the repository "
@@ -69,7 +69,7 @@ SPEC = dict(
     ],
     assumptions=[
         "PARTIAL: the full statement is false in four classes (KNOWN_FINDINGS: autoconnect-undo-leaves-slot-profile-stale, connect-setup-fails-slot-profile-stale — which here also covers the mirror case of a disconnect task whose second setup fails —, connect-undo-drops-hotplug-gone, forget-undo-reconnects-inactive; the former fourth class, finding 8, is repaired by /repo commit 63d7dd9 and kept as a regression replay); theorems are guarded by `excluded`, each class has a `_refuted` witness and is reproduced on the real code on every run",
-        "PARTIAL: auto-connect is modelled and driven for an installed plug snap with a base declaration that allows every pair (slots-per-plug: *); snap install/remove (remove-profiles, discard-conns), refresh with changed plugs/slots, gadget connections, hotplug add/remove tasks and failures inside UNDO handlers are not modelled and not driven; auto / by-gadget / auto-disconnect / by-hotplug are exercised as flags of the connect / disconnect tasks",
+        "PARTIAL: auto-connect is modelled and driven for an installed plug snap with a base declaration that allows every pair (slots-per-plug: *); removal of the plug snap is modelled and driven with failure points before/after only (a security setup failing inside an injected disconnect task is excluded) and as the LAST operation of a history (the model world has both snaps installed); install of a new snap, refresh with changed plugs/slots, gadget connections, hotplug add/remove tasks and failures inside UNDO handlers are not modelled and not driven; auto / by-gadget / auto-disconnect / by-hotplug are exercised as flags of the connect / disconnect tasks",
         "both snaps are installed and all plugs and slots exist in the repository throughout (undoDisconnect's missing plug/slot branch and reloadConnections' stale-entry branch are not exercised)",
         "the policy check always allows the connection (no snap-declaration restrictions in the fixtures)",
     ],
